@@ -7,7 +7,8 @@
 //
 //	op     : <kind>[!] <params…> | <value tokens> | <rest hex>
 //	answer : <marshalled hex> <bytes Unmarshal reported> | <decoded value tokens>
-//	         | `panic` (Marshal panicked) | `<hex> panic` (Unmarshal panicked)
+//	         | `panic` (Marshal panicked) | `<hex> panic` (Unmarshal panicked) | `hang` / `<hex> hang` (no return within 10 s:
+//	           the rest of the run is skipped)
 //
 // Values are written in a flat prefix notation (counts first, see render* below); the Lean driver parses the
 // value, marshals it with the model (bytes must be equal), unmarshals the *Go* bytes ++ rest with the model
@@ -22,6 +23,7 @@ import (
 	"sort"
 	"strconv"
 	"strings"
+	"time"
 
 	"diagonal.works/b6"
 	"diagonal.works/b6/encoding"
@@ -537,35 +539,62 @@ func newBuf() []byte {
 	return b
 }
 
+// aborted is set when an operation of the real code did not return within opDeadline (possible only on a
+// broken tree: a decoder following a garbage length). The answer of that op is `hang`, every later case is
+// skipped so that the process ends at once (the stuck goroutine cannot be stopped any other way).
+var aborted bool
+
+const opDeadline = 10 * time.Second
+
+// guarded runs f (real b6 code) on its own goroutine; "hang" when it does not return in time.
+func guarded(f func() string) string {
+	done := make(chan string, 1)
+	go func() { done <- hx.Recover(f) }()
+	select {
+	case a := <-done:
+		return a
+	case <-time.After(opDeadline):
+		aborted = true
+		return "hang"
+	}
+}
+
 // roundTrip: marshal (may panic) then unmarshal from marshalled ++ rest (may panic).
 func roundTrip(c *hx.Ctx, kind string, params string, value string, rest []byte,
 	marshal func(buf []byte) int, unmarshal func(buf []byte) (int, string)) string {
+	op := kind
+	if params != "" {
+		op += " " + params
+	}
+	op += " | " + value + " | " + hx.Hex(rest)
+	if aborted {
+		return ""
+	}
 	var bytes []byte
-	ans := hx.Recover(func() string {
+	ans := guarded(func() string {
 		buf := newBuf()
 		n := marshal(buf)
 		bytes = append([]byte(nil), buf[:n]...)
 		return ""
 	})
-	if ans != "panic" {
+	switch ans {
+	case "panic":
+		c.Note(kind + ":marshal-panic")
+	case "hang":
+		c.Note(kind + ":marshal-hang")
+	default:
 		c.Note(kind + ":bytes=" + bucket(len(bytes)))
 		full := append(append([]byte(nil), bytes...), rest...)
-		dec := hx.Recover(func() string {
+		dec := guarded(func() string {
 			n, v := unmarshal(full)
 			return fmt.Sprintf("%d | %s", n, v)
 		})
 		ans = hx.Hex(bytes) + " " + dec
-		if dec == "panic" {
-			c.Note(kind + ":unmarshal-panic")
+		if dec == "panic" || dec == "hang" {
+			c.Note(kind + ":unmarshal-" + dec)
 		}
-	} else {
-		c.Note(kind + ":marshal-panic")
 	}
-	op := kind
-	if params != "" {
-		op += " " + params
-	}
-	c.Op(op+" | "+value+" | "+hx.Hex(rest), ans)
+	c.Op(op, ans)
 	return ans
 }
 
@@ -1151,7 +1180,10 @@ func runTokenMap(c *hx.Ctx, rest []byte) {
 	for _, q := range queries {
 		qs = append(qs, hx.Hex([]byte(q)))
 	}
-	ans := hx.Recover(func() string {
+	if aborted {
+		return
+	}
+	ans := guarded(func() string {
 		e := compact.NewTokenMapEncoder()
 		for _, a := range adds {
 			e.Add(a.tok, a.ix)
@@ -1253,7 +1285,7 @@ func main() {
 		Corpus:   corpus,
 		Case: func(c *hx.Ctx) {
 			kind := kinds[c.CaseNo%len(kinds)]
-			for j := 0; j < 3; j++ {
+			for j := 0; j < 3 && !aborted; j++ {
 				runKind(c, kind)
 			}
 		},
